@@ -120,6 +120,13 @@ def check(ctx):
         c19.check_sparse_builder_enables(ctx, ctx.facts(cfg), "" if cfg == "native" else "@" + cfg, "C06.R5")
         check_no_read_ahead(ctx, ctx.facts(cfg), "" if cfg == "native" else "@" + cfg)
         check_refusal_inventory(ctx, ctx.facts(cfg), "" if cfg == "native" else "@" + cfg, "C06.R6.loader-refusals-reviewed", lambda n: n.endswith("serialize::Serialize>::load"))
+        # R9 (borrowed): a raw vector serializes to bits_to_words(len) words with zero bits past the end, and its loader insists
+        # on exactly that -- so load(serialize(x)) succeeds only while every mutation keeps the word count and the tail (C05.R1 / R3 / R4)
+        import c05
+        if cfg == "native":
+            c05.check_tail_invariant(ctx, ctx.facts(cfg), "", prefix="C06.R9.unused-bits-zero")
+            c05.check_word_count(ctx, ctx.facts(cfg), "", rule="C06.R9.raw-vector-word-count")
+            c05.check_grow_fill(ctx, ctx.facts(cfg), "", prefix="C06.R9.raw-vector")
         # R8 (borrowed): "exactly size_in_bytes(x) bytes are written" on the file route -- a buffering writer the library wraps
         # around the file is flushed on every successful path (C14.R2)
         import c14
